@@ -114,7 +114,7 @@ def run(prop, tier, seed, replay=None):
             n2 = len(dr["types"])
             tab2 = {"types": dr["types"], "order": [dr["rows"][str(i)]["order"] for i in range(1, n2 + 1)],
                     "subtt": [dr["rows"][str(i)]["subtt"] for i in range(1, n2 + 1)], "parents": dr["parents"], "attrs": dr["attrs"],
-                    "equiv": [], "rows": [{k: v for k, v in dr["rows"][str(i)].items() if k in ("clssub", "clssub_raw", "dispatch", "dispatch_alone", "twin")} for i in range(1, n2 + 1)],
+                    "equiv": [], "rows": [{k: v for k, v in dr["rows"][str(i)].items() if k in ("clssub", "clssub_raw", "dispatch", "dispatch_alone", "dispatch_both", "twin")} for i in range(1, n2 + 1)],
                     "rowids": {str(i): 1 for i in range(1, n2 + 1)}}
             d2 = tlc.scratch_dir("types")
             path2 = os.path.join(d2, "tab.json")
@@ -136,8 +136,8 @@ def run(prop, tier, seed, replay=None):
                         if rej["clause"].startswith("C13"):
                             i2 = int(parts[1][1:])
                             rep.rejected(rej["clause"], {"kind": "deferred", "type": dr["types"][i2 - 1], "row": dr["rows"][str(i2)], "case_id": dr["id"]}, {})
-            if dr["pre"] != {"d1": "O", "d2": "O"}:
-                rep.rejected("C13:applicable_iff_sat.deferred_before_import", {"kind": "deferred", "pre": dr["pre"]}, {})
+            if dr["pre"] != {"d1": "O", "d2": "O"} or dr["pre_both"] != "O":
+                rep.rejected("C13:applicable_iff_sat.deferred_before_import", {"kind": "deferred", "pre": dr["pre"], "pre_both": dr["pre_both"]}, {})
             if not dr["loaded_returns_class"]:
                 rep.rejected("C13:deferred_loaded_is_class", {"kind": "deferred"}, {})
     rep.sample({"types": T[:12], "order_row_1": rows["1"]["order"][:12]})
